@@ -80,6 +80,7 @@ def shards(tier, seed):
         n, nt, no = 16, 3, 4
     else:
         n, nt, no = 64, 18, 24
+    n = int(os.environ.get('OMV_C24_NSHARDS', n))      # development aid (sensitivity runs on a loaded machine)
     out = []
     for i in range(n):
         out.append({'seed': seed * 100000 + i * 1000, 'n_totals': nt, 'n_opt': no, 'n_coupled': 3 * no, 'tier': tier,
@@ -185,17 +186,48 @@ class SeedFailureMonitor(FailureMonitor):
                     mon._mixed[sys_.pathname] = mixed
             except Exception:
                 pass
-            mon.failures.append((type(slf).__name__, msg, seeds, mixed))
+            full = None
+            try:
+                full = slf._system()._relevance.get_full_seeds()
+            except Exception:
+                pass
+            mon.failures.append((type(slf).__name__, msg, seeds, mixed, full))
             return mon._orig(slf, msg)
         Solver.report_failure = report_failure
         return self
 
 
-def _fail_class(failures, src2spec, dead):
-    """dead-seed: every failure happened while a seed without any counterpart was active;
-    live-seed:mixed-stack: ... below the failing solver there is a group whose linear solver disables relevance;
-    live-seed:uniform-stack: neither."""
-    live = [f for f in failures if not (f[2] and all(src2spec.get(x) in dead for x in f[2]))]
+def _fail_class(failures, src2spec, dep):
+    """Classify solver failures that only the relevance-enabled twin reports.
+    A failure is a dead-seed failure if every seed active at that moment has NO counterpart among the seeds of the
+    other direction of the total-jacobian computation in progress (fwd seed: no response of that computation
+    depends on it; rev seed: it depends on none of that computation's design variables) - `dep` is the harness'
+    own structural dependency {response: set(design vars)}.
+      dead-seed               every failure is a dead-seed failure
+      live-seed:mixed-stack   ... otherwise, and below each failing solver there is a group whose linear solver
+                              switches relevance off (DirectSolver)
+      live-seed:uniform-stack neither."""
+    def dead(f):
+        seeds, full = f[2], f[4]
+        if not seeds or not full:
+            return False
+        ffwd, frev = full
+        fw = [src2spec.get(x) for x in ffwd]
+        rv = [src2spec.get(x) for x in frev]
+        for x in seeds:
+            v = src2spec.get(x)
+            if v is None:
+                return False
+            if x in ffwd and x not in frev:
+                if any((v in dep.get(o, ())) or o == v for o in rv if o is not None) or None in rv:
+                    return False
+            elif x in frev:
+                if any((w in dep.get(v, ())) or w == v for w in fw if w is not None) or None in fw:
+                    return False
+            else:
+                return False
+        return True
+    live = [f for f in failures if not dead(f)]
     if not live:
         return 'dead-seed'
     if all(f[3] for f in live):
@@ -605,6 +637,9 @@ def _judge_totals_cell(acc, sp, fm, u, p, S, cond, dep, kind, mode, gbk, plan, c
             # mechanism = which seeds exist; the solver type is the observable
             w = what.split(':')
             return '%s:solver-fails-only-with-relevance:totals:%s:mode=%s' % (':'.join(w[2:]), w[1], mode)
+        if ':DEADSEED:' in what:
+            lab, _, obs = what.partition(':DEADSEED:')
+            return 'dead-seed:%s-totals:%s:ln=%s:mode=%s' % (obs, lab.replace('wrong-', ''), kind, mode)
         return 'totals:%s:ln=%s:mode=%s:api=%s' % (what, kind, mode, plan['api'] if plan['api'] == 'explicit'
                                                     else 'declared-' + plan['driver'])
     on = _run_totals_twin(sp, mode, plan, norel=False)
@@ -638,11 +673,10 @@ def _judge_totals_cell(acc, sp, fm, u, p, S, cond, dep, kind, mode, gbk, plan, c
         # every solver converged without pruning, but reports non-convergence with pruning: observable (message,
         # wasted iterations, AnalysisError under err_on_non_converge=True)
         kinds_f = sorted(set(f[0] for f in on['failures']))
-        dead = set(_dead_seeds(plan, dep, None))
-        fc = _fail_class(on['failures'], on.get('src2spec', {}), dead)
+        fc = _fail_class(on['failures'], on.get('src2spec', {}), dep)
         bad.append(('solver-fails-only-with-relevance:%s' % '+'.join(kinds_f), fc, float(len(on['failures']))))
         if fc != 'dead-seed' and os.environ.get('OMV_DEBUG'):
-            print('LIVE-SEED failure', fc, ccase, on['failures'][:3], 'dead', dead, file=sys.stderr)
+            print('LIVE-SEED failure', fc, ccase, on['failures'][:3], file=sys.stderr)
     # baseline sanity: the disabled twin must agree with R, otherwise this is not C24's case
     for lab, (Jr, mask) in ref.items():
         if _relerr(off['res'][lab], Jr) > TOL_REF:
@@ -673,17 +707,29 @@ def _judge_totals_cell(acc, sp, fm, u, p, S, cond, dep, kind, mode, gbk, plan, c
         e1 = _relerr(Jon, Joff)
         e2 = _relerr(Jon, Jr)
         if e1 > tol or e2 > TOL_REF:
-            if np.shape(Jon) == np.shape(Jr) and np.all(np.isfinite(Jon)):
-                D = np.abs(np.asarray(Jon) - Jr) > TOL_REF * max(1.0, np.max(np.abs(Jr)))
-                D |= np.abs(np.asarray(Jon) - Joff) > tol * max(1.0, np.max(np.abs(Joff)))
-                where = []
-                if np.any(D & mask):
-                    where.append('dependent-entries')
-                if np.any(D & ~mask):
-                    where.append('structurally-zero-entries')
-                where = '+'.join(where) or 'entries'
+            Ja = np.asarray(Jon, dtype=float)
+            if Ja.shape == Jr.shape:
+                nonfin = ~np.isfinite(Ja)
+                with np.errstate(invalid='ignore'):
+                    D = nonfin | (np.abs(Ja - Jr) > TOL_REF * max(1.0, np.max(np.abs(Jr))))
+                    D |= np.abs(Ja - Joff) > tol * max(1.0, np.max(np.abs(Joff)))
+                # rows / columns of seeds without any counterpart in THIS jacobian (structurally zero)
+                deadmask = np.zeros(mask.shape, dtype=bool)
+                deadmask[~mask.any(axis=1), :] = True
+                deadmask[:, ~mask.any(axis=0)] = True
+                if D.any() and not (D & ~deadmask).any():
+                    where = 'DEADSEED:' + ('nonfinite' if not (D & ~nonfin).any() else 'wrong')
+                else:
+                    where = []
+                    if np.any(D & mask):
+                        where.append('dependent-entries')
+                    if np.any(D & ~mask):
+                        where.append('structurally-zero-entries')
+                    if nonfin.any():
+                        where.append('nonfinite')
+                    where = '+'.join(where) or 'entries'
             else:
-                where = 'shape-or-nonfinite'
+                where = 'shape'
             bad.append(('wrong-' + lab, where, max(e1, e2)))
     acc.count('cell:mode=%s' % mode)
     acc.count('cell:ln=%s' % kind)
@@ -860,8 +906,8 @@ def _case_opt(case, acc):
     bad = []
     if on['failures']:
         kinds_f = sorted(set(f[0] for f in on['failures']))
-        dead = set((['r0'] if s['with_r0'] else []) + (['xz'] if s['with_xz'] else []))
-        fc = _fail_class(on['failures'], on.get('src2spec', {}), dead)
+        dep_o = {'f': {'xa', 'xb'}, 'g1': {'xa'}, 'g2': {'xb'}, 'g3': {'xa', 'xb'}, 'r0': set()}
+        fc = _fail_class(on['failures'], on.get('src2spec', {}), dep_o)
         bad.append(('SOLVERFAIL|%s|%s' % (fc, '+'.join(kinds_f)),
             '%d solver failure report(s) with relevance enabled, none with relevance disabled: %s'
             % (len(on['failures']), on['failures'][0][1][:160])))
@@ -1001,25 +1047,24 @@ def _case_coupled(case, acc):
     bad = []
     if on['failures']:
         kinds_f = sorted(set(f[0] for f in on['failures']))
-        # seeds that truly have no counterpart: zero rows / columns of the exact jacobian
-        dead = set()
-        r0 = 0
+        # own dependency: nonzero blocks of the exact jacobian M^-1 N (and of C M^-1 N)
         sizes = {'y0': s['ny'][0], 'y1': s['ny'][1], 'y2': s['ny'][2], 'z': 2, 'x1': s['nx'][0], 'x2': s['nx'][1]}
+        dep_c = {}
+        r0 = 0
         for o in s['of']:
-            if not np.any(np.abs(Jr[r0:r0 + sizes[o]]) > 1e-14):
-                dead.add(o)
+            c0 = 0
+            dep_c[o] = set()
+            for w in s['wrt']:
+                if np.any(np.abs(Jr[r0:r0 + sizes[o], c0:c0 + sizes[w]]) > 1e-14):
+                    dep_c[o].add(w)
+                c0 += sizes[w]
             r0 += sizes[o]
-        c0 = 0
-        for w in s['wrt']:
-            if not np.any(np.abs(Jr[:, c0:c0 + sizes[w]]) > 1e-14):
-                dead.add(w)
-            c0 += sizes[w]
-        fc = _fail_class(on['failures'], on.get('src2spec', {}), dead)
+        fc = _fail_class(on['failures'], on.get('src2spec', {}), dep_c)
         bad.append(('SOLVERFAIL|%s|%s' % (fc, '+'.join(kinds_f)),
                     '%d solver failure report(s) only with relevance enabled: %s'
                     % (len(on['failures']), on['failures'][0][1][:160])))
         if fc != 'dead-seed' and fam.startswith('uncoupled') and os.environ.get('OMV_DEBUG'):
-            print('LIVE-SEED failure', fc, case, tags, on['failures'][:2], 'dead', dead, s['of'], s['wrt'], file=sys.stderr)
+            print('LIVE-SEED failure', fc, case, tags, on['failures'][:2], s['of'], s['wrt'], file=sys.stderr)
     if _relerr(on['res']['values'], off['res']['values']) > 1e-12:
         bad.append(('wrong-values', 'outputs differ between twins'))
     e1 = _relerr(on['res']['totals'], off['res']['totals'])
